@@ -26,6 +26,124 @@ type c01Sel struct {
 	val     int64
 	leaf    func(n ast.Node, sel, exp bool)
 	unknown []string
+
+	// boolDefs: boolean locals defined once as a pure predicate over the selector
+	// (`signed := kind < reflect.Uint8`); a condition that is such a local is decided like the predicate.
+	boolDefs map[types.Object]ast.Expr
+	// helper resolves a call to a function of the module whose body is to be walked in place of the call
+	// when the selector is passed to it (a kind switch extracted into a helper); nil: calls are leaves.
+	helper func(c *ast.CallExpr) (*ast.FuncDecl, *types.Info)
+	depth  int
+}
+
+// pred decides a condition over the selector, looking through boolean locals recorded in boolDefs.
+func (s *c01Sel) pred(e ast.Expr) (res, ok bool) {
+	e = ast.Unparen(e)
+	switch x := e.(type) {
+	case *ast.Ident:
+		if d, has := s.boolDefs[s.info.Uses[x]]; has && s.info.Uses[x] != nil {
+			return s.pred(d)
+		}
+	case *ast.UnaryExpr:
+		if x.Op == token.NOT {
+			r, ok := s.pred(x.X)
+			return !r, ok
+		}
+	case *ast.BinaryExpr:
+		if x.Op == token.LAND || x.Op == token.LOR {
+			l, ok1 := s.pred(x.X)
+			r, ok2 := s.pred(x.Y)
+			if !ok1 || !ok2 {
+				return false, false
+			}
+			if x.Op == token.LAND {
+				return l && r, true
+			}
+			return l || r, true
+		}
+	}
+	return evalPred(s.info, e, s.isVar, s.val)
+}
+
+// about reports whether e depends on the selector, directly or through a recorded boolean local.
+func (s *c01Sel) about(e ast.Expr) bool {
+	if mentions(e, s.isVar) {
+		return true
+	}
+	found := false
+	ast.Inspect(e, func(n ast.Node) bool {
+		if id, ok := n.(*ast.Ident); ok {
+			if o := s.info.Uses[id]; o != nil {
+				if _, has := s.boolDefs[o]; has {
+					found = true
+				}
+			}
+		}
+		return true
+	})
+	return found
+}
+
+// recordBool notes `v := <predicate over the selector>` (single boolean definition).
+func (s *c01Sel) recordBool(st ast.Stmt) {
+	as, ok := st.(*ast.AssignStmt)
+	if !ok || as.Tok != token.DEFINE || len(as.Lhs) != 1 || len(as.Rhs) != 1 {
+		return
+	}
+	id, ok := as.Lhs[0].(*ast.Ident)
+	if !ok {
+		return
+	}
+	o := s.info.Defs[id]
+	if o == nil {
+		return
+	}
+	if b, ok := o.Type().Underlying().(*types.Basic); !ok || b.Kind() != types.Bool {
+		return
+	}
+	if !mentions(as.Rhs[0], s.isVar) {
+		return
+	}
+	if _, ok := evalPred(s.info, as.Rhs[0], s.isVar, s.val); !ok {
+		return
+	}
+	if s.boolDefs == nil {
+		s.boolDefs = map[types.Object]ast.Expr{}
+	}
+	s.boolDefs[o] = as.Rhs[0]
+}
+
+// intoHelpers walks the bodies of the helpers called inside n with the selector as an argument.
+func (s *c01Sel) intoHelpers(n ast.Node, sel, exp bool) {
+	if s.helper == nil || s.depth >= 2 || n == nil {
+		return
+	}
+	ast.Inspect(n, func(m ast.Node) bool {
+		if _, ok := m.(*ast.FuncLit); ok {
+			return false
+		}
+		c, ok := m.(*ast.CallExpr)
+		if !ok {
+			return true
+		}
+		passes := false
+		for _, a := range c.Args {
+			if s.isVar(a) {
+				passes = true
+			}
+		}
+		if !passes {
+			return true
+		}
+		decl, info := s.helper(c)
+		if decl == nil || decl.Body == nil {
+			return true
+		}
+		sub := &c01Sel{info: info, selType: s.selType, val: s.val, leaf: s.leaf, helper: s.helper, depth: s.depth + 1}
+		sub.stmts(decl.Body.List, sel, exp)
+		s.unknown = append(s.unknown, sub.unknown...)
+		return true
+	})
 }
 
 const (
@@ -53,6 +171,7 @@ func (s *c01Sel) emit(n ast.Node, sel, exp bool) {
 	if n != nil && s.leaf != nil {
 		s.leaf(n, sel, exp)
 	}
+	s.intoHelpers(n, sel, exp)
 }
 
 func (s *c01Sel) stmt(st ast.Stmt, sel, exp bool) int {
@@ -65,10 +184,11 @@ func (s *c01Sel) stmt(st ast.Stmt, sel, exp bool) int {
 		return s.stmt(x.Stmt, sel, exp)
 	case *ast.IfStmt:
 		if x.Init != nil {
+			s.recordBool(x.Init)
 			s.stmt(x.Init, sel, exp)
 		}
-		if mentions(x.Cond, s.isVar) {
-			if r, ok := evalPred(s.info, x.Cond, s.isVar, s.val); ok {
+		if s.about(x.Cond) {
+			if r, ok := s.pred(x.Cond); ok {
 				if r {
 					return s.stmts(x.Body.List, true, true)
 				}
@@ -137,6 +257,7 @@ func (s *c01Sel) stmt(st ast.Stmt, sel, exp bool) int {
 		}
 		return c01Falls
 	default:
+		s.recordBool(st)
 		s.emit(st, sel, exp)
 		return c01Falls
 	}
